@@ -153,6 +153,8 @@ pub struct Machine<'p> {
     /// (return from `THEN GOSUB n ELSE`, loop-back to `THEN FOR .. ELSE`, reply to `THEN INPUT v ELSE`):
     /// the shape of known finding D5
     pub resumed_before_else: bool,
+    /// the last step executed only a `:` separator
+    pub last_step_was_separator: bool,
 }
 
 type R<T> = Result<T, Fail>;
@@ -193,6 +195,7 @@ impl<'p> Machine<'p> {
             kinds_executed: Default::default(),
             lines_visited: vec![],
             resumed_before_else: false,
+            last_step_was_separator: false,
         }
     }
 
@@ -715,6 +718,7 @@ impl<'p> Machine<'p> {
         let seq_raw = Pos { line: pos.line, item: pos.item + 1, after_then: false };
         // sequential successor is provisionally installed; statements overwrite self.pos to transfer
         self.pos = Some(seq_raw);
+        self.last_step_was_separator = pos.item % 2 == 1;
         let result = if pos.item % 2 == 1 {
             // the `:` separator is a statement of its own
             self.events.push(Ev::Trace(line.number));
